@@ -16,6 +16,7 @@ import (
 	"verif.local/sim/simioutil"
 	"verif.local/sim/simnet"
 	"verif.local/sim/simos"
+	"verif.local/sim/simtime"
 	"verif.local/sim/simunix"
 )
 
@@ -64,6 +65,7 @@ type nodeInc struct {
 	tasks    []*taskRec
 	obs      incObs
 	acked, ackedTerm uint64 // highest (index,term) this incarnation acknowledged as stored and still holds
+	ackedMax         uint64 // highest index this incarnation ever acknowledged (never lowered)
 	pendPrev, pendN  uint64 // append request in progress
 	gone      chan struct{} // closed when the incarnation's main goroutine has returned
 	diskErrs  int // disk errors injected into this incarnation
@@ -611,7 +613,15 @@ func (run *simRun) ioHook(op, path string) error {
 		if ni.crashAtIO == 0 {
 			run.reach("crash_at_io:" + op)
 			run.crash(ni, "io")
+			return nil
 		}
+	}
+	// a slow disk: the call takes simulated time, during which the other goroutines of the
+	// node (and everybody else) go on. Only while faults are being injected.
+	if run.cfg.SlowIO > 0 && run.phase == "chaos" && run.tape.Chance(rt.StDisk, run.cfg.SlowIO, 1000) {
+		d := int64(run.cfg.SlowIOMax) * int64(1+run.tape.Choose(rt.StDisk, 8)) / 8
+		run.fault("slow_io")
+		simtime.Sleep(simtime.Duration(d))
 	}
 	return nil
 }
